@@ -7,7 +7,10 @@ TNext ==
    /\ LET ev == TraceLog[l] IN
       IF ev.e = "Reset" THEN TRUE
       ELSE IF ev.e = "Fault" THEN Flag(l, <<"fault">>, [kind |-> ev.kind, where |-> ev.where])
-      ELSE LET d == Def(ev.fn, ev.mem, ev.a, ev.b, ev.n)
+      \* a negative n stands for a bound near SIZE_MAX ("as much as there is"): legal for the functions that stop at the
+      \* terminator or, for memchr, at the first match (C11 7.24.5.1: reads sequentially and stops at the match)
+      ELSE LET nn == IF ev.n >= 0 THEN ev.n ELSE IF ev.fn = "memchr" THEN Len(ev.mem) - ev.a ELSE 1000000
+               d == Def(ev.fn, ev.mem, ev.a, ev.b, nn)
                exp == [ret |-> d.ret, mem2 |-> d.mem]
                mm == Mismatch(ev, exp)
            IN IF mm # {} THEN Flag(l, SetToSeq(mm), exp) ELSE TRUE
